@@ -72,6 +72,7 @@ G0(s) == [ sets |-> << >>, pkt |-> << >>, recvMax |-> << >>, blockVsc |-> s.vscI
            blockSent |-> << >>,             \* C09: consumer chain |-> packet sending was permitted at its last end-block
            removeFailed |-> {},
            forged |-> {},
+           failedLaunch |-> << >>,          \* C19: consumer |-> its record right after its launch failed in the current block
            stoppedAtStart |-> {},
            expXfer |-> << >> ]              \* C16: consumer chain |-> denom |-> amount its end-block must hand to the transfer module          \* C11: channels of consumers that were already stopped when the current provider block began                  \* consumer chains that behaved maliciously (their own invariants are not claimed)
 
@@ -107,9 +108,9 @@ NextG(e, np) ==
       [] e.a = "Block" ->
            [g EXCEPT !.stoppedAtStart = { np.cons[c].chan : c \in { c2 \in DOMAIN np.cons : np.cons[c2].phase \in {"stopped", "deleted"} /\ np.cons[c2].chan # "" } },
                      !.blockVsc = np.vscId, !.lpsPrev = np.lps, !.expSent = << >>,
-                     !.dueSeq = << >>, !.nLaunch = 0, !.remSeq = << >>, !.nRemove = 0]
+                     !.dueSeq = << >>, !.nLaunch = 0, !.remSeq = << >>, !.nRemove = 0, !.failedLaunch = << >>]
       [] e.a = "PLaunchDue" -> [g EXCEPT !.dueSeq = Take(FlattenDue(p.launchQ, np.t), 200), !.nLaunch = 0]
-      [] e.a \in {"PLaunchFail"} -> [g EXCEPT !.nLaunch = g.nLaunch + 1]
+      [] e.a \in {"PLaunchFail"} -> [g EXCEPT !.nLaunch = g.nLaunch + 1, !.failedLaunch = (e.args.c :> np.cons[e.args.c]) @@ g.failedLaunch]
       [] e.a = "PRemoveDue" -> [g EXCEPT !.remSeq = Take(FlattenDue(p.removeQ, np.t), 200), !.nRemove = 0]
       [] e.a = "PRemoveOK" -> [g EXCEPT !.nRemove = g.nRemove + 1]
       [] e.a = "PBeginCIS" ->
@@ -370,6 +371,42 @@ C04_VecSetCap ==
   (E.a = "VecSetCap") =>
     E.res.out = (IF E.args.topN = 0 /\ E.args.cap > 0 /\ E.args.cap < Len(E.args.in) THEN SubSeq(E.args.in, 1, E.args.cap) ELSE E.args.in)
 
+
+(* ---- C04 for extreme values: multi-limb naturals (4 limbs, base 10^6, least significant first) ------------- *)
+\* TLC integers are 32-bit; voting powers near CometBFT's limit (~1.15 * 10^18) are handed over as limb sequences
+BBASE == 1000000
+BZero == <<0, 0, 0, 0>>
+BOne  == <<1, 0, 0, 0>>
+BAdd(a, b) ==
+  LET C[i \in 0..4] == IF i = 0 THEN 0 ELSE (a[i] + b[i] + C[i-1]) \div BBASE
+  IN  [ i \in 1..4 |-> (a[i] + b[i] + C[i-1]) % BBASE ]
+BMulSmall(a, k) ==      \* k <= 100
+  LET C[i \in 0..4] == IF i = 0 THEN 0 ELSE (a[i] * k + C[i-1]) \div BBASE
+  IN  [ i \in 1..4 |-> (a[i] * k + C[i-1]) % BBASE ]
+BDivSmall(a, k) ==      \* floor(a / k), k <= 100
+  LET R[i \in 1..5] == IF i = 5 THEN 0 ELSE (R[i+1] * BBASE + a[i]) % k
+  IN  [ i \in 1..4 |-> (R[i+1] * BBASE + a[i]) \div k ]
+BLess(a, b) == \E i \in 1..4 : a[i] < b[i] /\ \A j \in (i+1)..4 : a[j] = b[j]
+BLeq(a, b)  == a = b \/ BLess(a, b)
+BSum(S, f)  == FoldSet(LAMBDA x, acc : BAdd(acc, f[x]), BZero, S)
+
+PowerCapPostBig(pct, in, out, negs) ==
+  LET D     == DOMAIN in
+      S     == BSum(D, in)
+      m0    == BDivSmall(BMulSmall(S, pct), 100)
+      maxP  == IF m0 = BZero THEN BOne ELSE m0
+      feas  == BLeq(S, BMulSmall(maxP, Cardinality(D)))
+  IN  /\ negs = << >>                       \* no negative power
+      /\ DOMAIN out = D
+      /\ IF feas
+           THEN /\ \A v \in D : BLeq(out[v], maxP) /\ BLeq(BOne, out[v])
+                /\ BSum(D, out) = S
+                /\ \A a, b \in D : BLess(in[b], in[a]) => BLeq(out[b], out[a])
+                /\ \A v \in D : BLeq(in[v], maxP) => BLeq(in[v], out[v])
+           ELSE \A v \in D : out[v] = maxP
+
+C04_VecPowerCapBig == (E.a = "VecPowerCapBig") => PowerCapPostBig(E.args.p, E.args.in, E.res.out, E.res.negs)
+
 (* ======================================================================= *)
 (* C12  validator-set update ids and heights                                *)
 (* ======================================================================= *)
@@ -419,6 +456,7 @@ C12_ConsumerMapStable == [][
     LET a == cs[Ev.chain].h2id  b == cs'[Ev.chain].h2id  hh == cs'[Ev.chain].h IN
     \A k \in DOMAIN a \cap DOMAIN b : (k # ToString(hh + 1)) => a[k] = b[k]
   ]_vars
+
 
 (* ======================================================================= *)
 (* C15  the provider's own consensus set                                    *)
@@ -681,6 +719,12 @@ C19_LaunchRollback == [][
     /\ p'.dig.rest = p.dig.rest
     /\ p'.clients = p.clients
     /\ p'.cl2c = p.cl2c /\ p'.ch2c = p.ch2c
+  ]_vars
+
+\* ... and nothing a failed launch wrote resurfaces later in the same launch step (e.g. with the next consumer's launch)
+C19_FailedStaysRolledBack == [][
+  (PStep /\ Ev.a \in {"PLaunchOK", "PLaunchFail", "PBeginLaunch"}) =>
+    \A c \in DOMAIN g.failedLaunch : (c \in Cons(p') /\ ~(Ev.a = "PLaunchFail" /\ Ev.args.c = c)) => p'.cons[c] = g.failedLaunch[c]
   ]_vars
 
 \* a failed removal leaves the consumer stopped and intact; a failed allocation leaves credits and pool intact
@@ -1205,6 +1249,23 @@ C07_MisbRejectedUnchanged == [][
 \* tombstoning is permanent and jailing by equivocation happens only through evidence
 C07_TombstoneSticky == [][
   PStep => \A v \in DOMAIN p.vals \cap DOMAIN p'.vals : p.vals[v].tomb => p'.vals[v].tomb
+  ]_vars
+
+
+\* a downtime detected in consumer block h concerns height h-2 (the SDK's distribution height); the slash packet
+\* queued for it carries the id in force at that height (0 if the chain has no record for it)
+C12_SlashId == [][
+  (CStep /\ Ev.a = "BeginDone" /\ Ev.chain \in DOMAIN cs /\ Ev.chain \notin g.forged) =>
+    LET st == cs[Ev.chain]  st2 == cs'[Ev.chain] IN
+    (Len(st2.pending) = Len(st.pending) + 1 /\ Last(st2.pending).type = "slash" /\ Last(st2.pending).inf = "downtime") =>
+      Last(st2.pending).id = Get(st2.h2id, ToString(st2.h - 2))
+  ]_vars
+
+\* the provider resolves the id to the height at which that validator set was determined (channel-opening height for 0)
+C12_Resolve == [][
+  (PStep /\ SlashRecv(Ev) /\ Has(Ev.res, "infrH")) =>
+    LET c == Ev.args.c  pkt == Ev.res.recv[1] IN
+    Ev.res.infrH = (IF pkt.id = 0 THEN p.cons[c].initChainH.v ELSE p.v2h[ToString(pkt.id)])
   ]_vars
 
 =============================================================================
